@@ -190,7 +190,7 @@ ApplyD(dv, st, e, ev, a) ==
   CASE ev = "FeeIncome"  -> [st |-> [st EXCEPT !.fc = NAdd(st.fc, a.x)], panic |-> FALSE]
     [] ev = "Burn"       -> [st |-> [st EXCEPT !.supply = NSub(st.supply, a.x)], panic |-> FALSE]
     [] ev = "BeginBlock" -> BeginBlockD(dv, st, e, a.ended)
-    [] OTHER             -> [st |-> st, panic |-> FALSE]      \* Delegate, Jail, UpdateParams, EndBlock
+    [] OTHER             -> [st |-> st, panic |-> FALSE]      \* Delegate, Jail, UpdateParams(Dropped), EndBlock
 
 Apply(st, e, ev, a) == ApplyD(DEVIATIONS, st, e, ev, a)
 
